@@ -129,6 +129,11 @@ def handle (vh vb : Variant) (j : Json) : IO Unit := do
   let ideal := jbool (jget j "ideal")
   let rawOps := (jarr (jget j "ops")).map (fun o => (jint ((jarr o).getD 0 Json.null), jint ((jarr o).getD 1 Json.null)))
   let impl := chunk10 (jintList (jget j "obs"))
+  -- round 8: the history may be the projection of a fleet history (n endpoints on ONE checker) on one endpoint;
+  -- endpoints are independent, so it is judged exactly like a lone endpoint's history
+  let fl := jget j "fleet"
+  let fleetNote := if jnat (jget fl "n") == 0 then "" else
+    s!"endpoint #{jnat (jget fl "idx")} (priority {jint (jget fl "prio")}) of a fleet of {jnat (jget fl "n")} endpoints on one checker: "
   let c := genCfg interval
   let (sim, amb, dueOk) := simulate vh vb c (St.init 0) rawOps
   if amb then
@@ -148,13 +153,13 @@ def handle (vh vb : Variant) (j : Json) : IO Unit := do
     | none =>
       if !dueHeld then
         emit case agree false (branchOf h) "due-check-not-run-by-the-scheduler"
-          s!"check_interval {interval / 1000000} ms, history [{hist}]: a scheduler firing at or after the recorded next-check time did not run the check; observed (ran reached status delay …) per step {impl.map (fun o => o.take 4)}"
+          s!"{fleetNote}check_interval {interval / 1000000} ms, history [{hist}]: a scheduler firing at or after the recorded next-check time did not run the check; observed (ran reached status delay …) per step {impl.map (fun o => o.take 4)}"
           (if agree then Json.null else toJson want.flatten)
       else
-      emit case agree true (branchOf h) "" (if agree then "" else s!"interval {interval / 1000000}ms [{hist}]")
+      emit case agree true (branchOf h) "" (if agree then "" else s!"{fleetNote}interval {interval / 1000000}ms [{hist}]")
                 (if agree then Json.null else toJson want.flatten)
     | some k => emit case agree false (branchOf h) k.name
-                  s!"check_interval {interval / 1000000} ms, history [{hist}] violates clause {k.name}; observed (ran reached status delay fired failures mult …) per step {impl.map (fun o => o.take 7)}"
+                  s!"{fleetNote}check_interval {interval / 1000000} ms, history [{hist}] violates clause {k.name}; observed (ran reached status delay fired failures mult …) per step {impl.map (fun o => o.take 7)}"
                   (if agree then Json.null else toJson want.flatten)
 
 /-- `VERIF_C08_HEALTH` / `VERIF_C07_BACKOFF` = `fixed` | `pinned` override the committed variants
